@@ -97,7 +97,7 @@ def main():
         "setup_cmd": "cd govc && %s go build -o ../bin/govc ." % ENV,
         "hooks": {
             "guard": "verif",
-            "enable": "-tags verif (the only guarded files are the comment-only contract files engine/verif_contracts.go and verif_contracts.go; govc loads /repo with this tag)",
+            "enable": "-tags verif (the only guarded files are the comment-only contract files engine/verif_contracts.go, engine/verif_sweep.go and verif_contracts.go; govc loads /repo with this tag)",
             "baseline_off_cmd": "cd /repo && %s go test -vet=off -count=1 -timeout 25m ./..." % ENV,
             "source_commits": [c for c in commits if c],
             "add_only": True,
